@@ -116,3 +116,581 @@ Proof.
   - destruct ((65 <=? c) && (c <=? 90)) eqn:E; [lia|reflexivity].
   - vm_compute zs. unfold mem. simpl. lia.
 Qed.
+
+(* ---- lines / unlines -------------------------------------------------------- *)
+Lemma lines_aux_line cur l rest :
+  no_nl l = true ->
+  lines_aux cur (l ++ 10 :: rest) = (rev cur ++ l) :: lines_aux [] rest.
+Proof.
+  revert cur; induction l as [|c l IH]; intros cur H.
+  - simpl. now rewrite app_nil_r.
+  - simpl in H. apply andb_true_iff in H. destruct H as [Hc Hl].
+    apply andb_true_iff in Hc. destruct Hc as [H10 H13].
+    apply negb_true_iff in H10. apply negb_true_iff in H13.
+    simpl. rewrite H10, H13. rewrite IH by exact Hl. simpl.
+    now rewrite <- app_assoc.
+Qed.
+
+Lemma lines_unlines ls :
+  forallb no_nl ls = true -> lines (flat_map (fun l => l ++ [10]) ls) = ls.
+Proof.
+  unfold lines. induction ls as [|l ls IH]; intros H; [reflexivity|].
+  simpl in H. apply andb_true_iff in H. destruct H as [H1 H2].
+  simpl. rewrite <- app_assoc. simpl. rewrite lines_aux_line by exact H1.
+  simpl. now rewrite IH.
+Qed.
+
+Lemma no_nl_app a b : no_nl (a ++ b) = no_nl a && no_nl b.
+Proof. unfold no_nl. apply forallb_app. Qed.
+
+(* ---- blocks ------------------------------------------------------------------ *)
+Section Blocks.
+  Variable F : Type.
+  Variable fmtf : F -> str.
+  Variable fmt8 : Z -> str.
+  Hypothesis fmtf_token : forall v, token_ok (fmtf v) = true.
+  Hypothesis fmt8_digits : forall n, 0 <= n -> digits_ok (fmt8 n) = true.
+
+  Notation pf := (pfilter F).
+  Notation header := (header_line F fmt8).
+  Notation body := (body_lines F fmtf fmt8).
+  Notation slines := (save_lines F fmtf fmt8).
+
+  Lemma header_is_head f : is_head (header f) = true.
+  Proof. unfold header_line. vm_compute zs. simpl. now rewrite is_head_first. Qed.
+
+  Lemma point_lines_not_head i pts li :
+    In li (mapi_aux (point_line F fmtf fmt8) i pts) -> is_head li = false.
+  Proof.
+    revert i; induction pts as [|xy pts IH]; intros i; simpl; [tauto|].
+    intros [<-|H]; [|eauto].
+    unfold point_line. vm_compute zs. simpl. now rewrite is_head_first.
+  Qed.
+
+  Lemma body_not_head f li : In li (body f) -> is_head li = false.
+  Proof.
+    unfold body_lines. intros H. apply in_app_or in H. destruct H as [H|H].
+    - simpl in H. vm_compute zs in H.
+      destruct H as [<-|[<-|[<-|[<-|[]]]]]; simpl; try now rewrite is_head_first.
+    - eapply point_lines_not_head; eauto.
+  Qed.
+
+  Lemma blocks_aux_body h b bl rest :
+    (forall li, In li bl -> is_head li = false) ->
+    blocks_aux (Some (h, b)) (bl ++ rest) = blocks_aux (Some (h, rev bl ++ b)) rest.
+  Proof.
+    revert b; induction bl as [|li bl IH]; intros b H; [reflexivity|].
+    simpl. rewrite (H li) by now left. rewrite IH by (intros; apply H; now right).
+    now rewrite <- app_assoc.
+  Qed.
+
+  Lemma blocks_aux_saved h b fs :
+    blocks_aux (Some (h, b)) (flat_map slines fs)
+    = (h, rev b) :: map (fun f => (header f, body f)) fs.
+  Proof.
+    revert h b; induction fs as [|f fs IH]; intros h b; [reflexivity|].
+    change (flat_map slines (f :: fs)) with ((header f :: body f) ++ flat_map slines fs).
+    rewrite <- app_comm_cons. cbn [blocks_aux map]. rewrite header_is_head.
+    rewrite blocks_aux_body by (apply body_not_head).
+    rewrite IH. rewrite app_nil_r, rev_involutive. reflexivity.
+  Qed.
+
+  Lemma blocks_saved fs :
+    blocks (flat_map slines fs) = map (fun f => (header f, body f)) fs.
+  Proof.
+    unfold blocks. destruct fs as [|f fs]; [reflexivity|].
+    change (flat_map slines (f :: fs)) with ((header f :: body f) ++ flat_map slines fs).
+    rewrite <- app_comm_cons. cbn [blocks_aux map]. rewrite header_is_head.
+    rewrite blocks_aux_body by (apply body_not_head).
+    rewrite blocks_aux_saved. rewrite app_nil_r, rev_involutive. reflexivity.
+  Qed.
+End Blocks.
+
+
+Lemma last_app_ne' (l1 l2 : str) d : l2 <> [] -> last (l1 ++ l2) d = last l2 d.
+Proof.
+  intros H. destruct (exists_last H) as [l' [a E]]. subst l2.
+  now rewrite app_assoc, !last_last.
+Qed.
+
+Lemma split1_lit pre post :
+  existsb (Z.eqb 61) pre = false -> split1 61 (pre ++ 61 :: post) = Some (pre, post).
+Proof.
+  induction pre as [|c pre IH]; cbn [existsb split1 app]; intros H.
+  - now rewrite Z.eqb_refl.
+  - apply orb_false_iff in H. destruct H as [H1 H2].
+    replace (c =? 61) with false by lia. now rewrite IH.
+Qed.
+
+Lemma split_ws_aux_token cur t rest :
+  forallb (fun c => negb (is_space c)) t = true ->
+  split_ws_aux cur (t ++ rest) = split_ws_aux (rev t ++ cur) rest.
+Proof.
+  revert cur; induction t as [|c t IH]; intros cur H; [reflexivity|].
+  simpl in H. apply andb_true_iff in H. destruct H as [H1 H2].
+  apply negb_true_iff in H1. simpl. rewrite H1. rewrite IH by exact H2.
+  now rewrite <- app_assoc.
+Qed.
+
+Lemma split_ws_two tx ty :
+  tx <> [] -> ty <> [] ->
+  forallb (fun c => negb (is_space c)) tx = true ->
+  forallb (fun c => negb (is_space c)) ty = true ->
+  split_ws (tx ++ 32 :: ty) = [tx; ty].
+Proof.
+  intros Nx Ny Hx Hy. unfold split_ws. rewrite split_ws_aux_token by exact Hx.
+  rewrite app_nil_r. simpl.
+  destruct (rev tx) as [|c r] eqn:E.
+  { exfalso. apply Nx. rewrite <- (rev_involutive tx), E. reflexivity. }
+  rewrite <- E, rev_involutive. f_equal.
+  rewrite <- (app_nil_r ty) at 1. rewrite split_ws_aux_token by exact Hy.
+  rewrite app_nil_r. simpl.
+  destruct (rev ty) as [|c' r'] eqn:E'.
+  { exfalso. apply Ny. rewrite <- (rev_involutive ty), E'. reflexivity. }
+  now rewrite <- E', rev_involutive.
+Qed.
+
+(* ---- one line --------------------------------------------------------------- *)
+Ltac ev_closed :=
+  repeat match goal with
+         | |- context [str_eqb ?a ?b] =>
+             let v := eval vm_compute in (str_eqb a b) in
+             lazymatch v with
+             | true => change (str_eqb a b) with true
+             | false => change (str_eqb a b) with false
+             end
+         | |- context [startswith ?a ?b] =>
+             let v := eval vm_compute in (startswith a b) in
+             lazymatch v with
+             | true => change (startswith a b) with true
+             | false => change (startswith a b) with false
+             end
+         end.
+
+Lemma lower_id s :
+  forallb (fun c => negb ((65 <=? c) && (c <=? 90))) s = true -> lower s = s.
+Proof.
+  unfold lower. induction s as [|c s IH]; simpl; intros H; [reflexivity|].
+  apply andb_true_iff in H. destruct H as [H1 H2]. rewrite IH by exact H2.
+  unfold lower_c. apply negb_true_iff in H1. now rewrite H1.
+Qed.
+
+Lemma axis_ok_props s : axis_ok s = true ->
+  no_nl s = true /\ clean_by is_space s = true /\ lower s = s.
+Proof.
+  unfold axis_ok, name_ok. intros H. apply andb_true_iff in H. destruct H as [H H3].
+  apply andb_true_iff in H. destruct H as [H1 H2]. auto using lower_id.
+Qed.
+
+Section Load.
+  Variable F : Type.
+  Variable fmtf : F -> str.
+  Variable parsef : str -> option F.
+  Variable fmt8 : Z -> str.
+  Variable parse_int : str -> option Z.
+  Hypothesis parsef_fmtf : forall v, parsef (fmtf v) = Some v.
+  Hypothesis fmtf_token : forall v, token_ok (fmtf v) = true.
+  Hypothesis parse_fmt8 : forall n, 0 <= n -> parse_int (fmt8 n) = Some n.
+  Hypothesis fmt8_digits : forall n, 0 <= n -> digits_ok (fmt8 n) = true.
+
+  Notation acc := (acc F).
+  Notation mkacc := (mkacc F).
+  Notation load_line := (load_line F parsef parse_int).
+
+  Lemma load_line_x (a : acc) ax : axis_ok ax = true ->
+    load_line a (zs "X Axis = " ++ ax)
+    = LOk (mkacc (Some ax) (a_y F a) (a_name F a) (a_inv F a) (a_pts F a)).
+  Proof.
+    intros H. destruct (axis_ok_props ax H) as (_ & Hc & Hl).
+    unfold C15.load_line. vm_compute zs. simpl split1. cbv beta iota zeta.
+    ev_closed. cbv iota. rewrite strip_sp_clean by exact Hc. now rewrite Hl.
+  Qed.
+
+  Lemma load_line_y (a : acc) ay : axis_ok ay = true ->
+    load_line a (zs "Y Axis = " ++ ay)
+    = LOk (mkacc (a_x F a) (Some ay) (a_name F a) (a_inv F a) (a_pts F a)).
+  Proof.
+    intros H. destruct (axis_ok_props ay H) as (_ & Hc & Hl).
+    unfold C15.load_line. vm_compute zs. simpl split1. cbv beta iota zeta.
+    ev_closed. cbv iota. rewrite strip_sp_clean by exact Hc. now rewrite Hl.
+  Qed.
+
+  Lemma load_line_name (a : acc) nm : clean_by is_space nm = true ->
+    load_line a (zs "Name = " ++ nm)
+    = LOk (mkacc (a_x F a) (a_y F a) (Some nm) (a_inv F a) (a_pts F a)).
+  Proof.
+    intros Hc.
+    unfold C15.load_line. vm_compute zs. simpl split1. cbv beta iota zeta.
+    ev_closed. cbv iota. now rewrite strip_sp_clean by exact Hc.
+  Qed.
+
+  Lemma load_line_inv (a : acc) (b : bool) : a_inv F a = false ->
+    load_line a (zs "Inverted = " ++ (if b then zs "True" else zs "False"))
+    = LOk (mkacc (a_x F a) (a_y F a) (a_name F a) b (a_pts F a)).
+  Proof.
+    intros Ha.
+    unfold C15.load_line. vm_compute zs. destruct b; simpl split1; cbv beta iota zeta;
+      ev_closed; cbv iota; [reflexivity|now rewrite Ha].
+  Qed.
+
+  Lemma point_line_split i (xy : F * F) :
+    point_line F fmtf fmt8 i xy
+    = ([112; 111; 105; 110; 116] ++ fmt8 i ++ [32])
+        ++ 61 :: 32 :: (fmtf (fst xy) ++ 32 :: fmtf (snd xy)).
+  Proof.
+    unfold point_line. vm_compute zs. rewrite <- !app_assoc. reflexivity.
+  Qed.
+
+  Lemma token_props v :
+    fmtf v <> []
+    /\ forallb (fun c => negb (is_space c)) (fmtf v) = true
+    /\ forallb (fun c => negb (mem [91; 93] c)) (fmtf v) = true.
+  Proof.
+    destruct (token_ok_cons _ (fmtf_token v)) as (c & t & E & H). split; [congruence|].
+    split; eapply forallb_impl; try exact H; intros x Hx; cbv beta in *.
+    - destruct (is_space x); [discriminate|reflexivity].
+    - unfold mem. simpl. lia.
+  Qed.
+
+  Lemma clean_two (p : Z -> bool) tx ty :
+    tx <> [] -> ty <> [] ->
+    forallb (fun c => negb (p c)) tx = true -> forallb (fun c => negb (p c)) ty = true ->
+    p 32 = true \/ p 32 = false ->
+    clean_by p (tx ++ 32 :: ty) = true.
+  Proof.
+    intros Nx Ny Hx Hy _. destruct tx as [|c tx]; [congruence|].
+    unfold clean_by. rewrite <- app_comm_cons.
+    simpl in Hx. apply andb_true_iff in Hx. destruct Hx as [Hc _]. rewrite Hc.
+    rewrite app_comm_cons. change (32 :: ty) with ([32] ++ ty).
+    rewrite app_assoc, last_app_ne' by exact Ny.
+    now rewrite (forallb_last _ ty Ny Hy).
+  Qed.
+
+  Lemma load_line_point (a : acc) i (xy : F * F) : 0 <= i ->
+    load_line a (point_line F fmtf fmt8 i xy)
+    = LOk (mkacc (a_x F a) (a_y F a) (a_name F a) (a_inv F a)
+                 (a_pts F a ++ [(i, [fst xy; snd xy])])).
+  Proof.
+    intros Hi. rewrite point_line_split.
+    destruct (digits_ok_cons _ (fmt8_digits i Hi)) as (c & t & E & Hc & Hall & Hlast).
+    destruct (token_props (fst xy)) as (Nx & Sx & Bx).
+    destruct (token_props (snd xy)) as (Ny & Sy & By).
+    unfold C15.load_line. rewrite split1_lit.
+    2:{ rewrite !existsb_app. simpl. rewrite orb_false_r.
+        apply not_true_is_false. intros H. apply existsb_exists in H.
+        destruct H as [x [Hin Hx]]. rewrite forallb_forall in Hall.
+        specialize (Hall x Hin). unfold is_digit in Hall. lia. }
+    cbv beta iota zeta.
+    assert (Evar : strip ([112; 111; 105; 110; 116] ++ fmt8 i ++ [32])
+                   = 112 :: 111 :: 105 :: 110 :: 116 :: fmt8 i).
+    { rewrite app_assoc. rewrite strip_clean_sp; [reflexivity|].
+      unfold clean_by. simpl app. cbv beta iota.
+      change (112 :: 111 :: 105 :: 110 :: 116 :: fmt8 i)
+        with ([112; 111; 105; 110; 116] ++ fmt8 i).
+      rewrite last_app_ne' by (rewrite E; congruence).
+      destruct (is_digit_props _ Hlast) as (Hs & _). rewrite Hs. reflexivity. }
+    rewrite Evar.
+    assert (Elow : lower (112 :: 111 :: 105 :: 110 :: 116 :: fmt8 i)
+                   = 112 :: 111 :: 105 :: 110 :: 116 :: fmt8 i).
+    { unfold lower. simpl. do 5 f_equal. rewrite <- (map_id (fmt8 i)) at 2.
+      apply map_ext_in. intros x Hx. rewrite forallb_forall in Hall.
+      now destruct (is_digit_props _ (Hall x Hx)) as (_ & _ & _ & _ & L & _). }
+    rewrite Elow. vm_compute zs. ev_closed. cbv iota.
+    rewrite strip_sp_clean
+      by (apply clean_two; auto).
+    assert (Eset : strip_set [91; 93] (fmtf (fst xy) ++ 32 :: fmtf (snd xy))
+                   = fmtf (fst xy) ++ 32 :: fmtf (snd xy)).
+    { unfold strip_set.
+      rewrite <- (app_nil_r (fmtf (fst xy) ++ 32 :: fmtf (snd xy))) at 1.
+      apply (clean_by_strip _ _ [] []); [|reflexivity|reflexivity].
+      apply clean_two; auto. }
+    rewrite Eset, split_ws_two by assumption.
+    simpl parse_all. rewrite !parsef_fmtf. simpl skipn. rewrite parse_fmt8 by exact Hi.
+    reflexivity.
+  Qed.
+
+  Notation load_body := (load_body F parsef parse_int).
+  Definition rows_of (i : Z) (pts : list (F * F)) : list (Z * list F) :=
+    mapi_aux (fun k xy => (k, [fst xy; snd xy])) i pts.
+
+  Lemma load_points (a : acc) i pts : 0 <= i ->
+    load_body a (mapi_aux (point_line F fmtf fmt8) i pts)
+    = LOk (mkacc (a_x F a) (a_y F a) (a_name F a) (a_inv F a) (a_pts F a ++ rows_of i pts)).
+  Proof.
+    revert a i; induction pts as [|xy pts IH]; intros a i Hi.
+    - simpl. rewrite app_nil_r. destruct a; reflexivity.
+    - cbn [mapi_aux C15.load_body]. rewrite load_line_point by exact Hi.
+      rewrite IH by lia. cbn [a_x a_y a_name a_inv a_pts rows_of mapi_aux].
+      now rewrite <- app_assoc.
+  Qed.
+
+  Lemma wf_props (f : pfilter F) : wf_filter f = true ->
+    0 <= f_id F f /\ axis_ok (f_ax F f) = true /\ axis_ok (f_ay F f) = true
+    /\ name_ok (f_name F f) = true /\ f_pts F f <> [].
+  Proof.
+    unfold wf_filter. intros H. repeat (apply andb_true_iff in H; destruct H as [H ?]).
+    repeat split; auto; try lia. destruct (f_pts F f); [discriminate|congruence].
+  Qed.
+
+  Lemma load_body_saved (f : pfilter F) : wf_filter f = true ->
+    load_body (mkacc None None None false []) (body_lines F fmtf fmt8 f)
+    = LOk (mkacc (Some (f_ax F f)) (Some (f_ay F f)) (Some (f_name F f)) (f_inv F f)
+                 (rows_of 0 (f_pts F f))).
+  Proof.
+    intros H. destruct (wf_props f H) as (Hid & Hx & Hy & Hn & Hp).
+    unfold name_ok in Hn. apply andb_true_iff in Hn. destruct Hn as [_ Hn].
+    unfold body_lines. cbn [app C15.load_body].
+    rewrite load_line_x by exact Hx. rewrite load_line_y by exact Hy.
+    rewrite load_line_name by exact Hn. rewrite load_line_inv by reflexivity.
+    cbn [a_x a_y a_name a_inv a_pts]. rewrite load_points by lia. reflexivity.
+  Qed.
+
+  (* ---- the sorted, well-shaped point rows ---- *)
+  Lemma rows_keys_ge i pts kv : In kv (rows_of i pts) -> i <= fst kv.
+  Proof.
+    revert i; induction pts as [|xy pts IH]; intros i; simpl; [tauto|].
+    intros [<-|H]; simpl; [lia|]. specialize (IH _ H). lia.
+  Qed.
+
+  Lemma rows_no_dup i pts : has_dup_key (rows_of i pts) = false.
+  Proof.
+    revert i; induction pts as [|xy pts IH]; intros i; [reflexivity|].
+    cbn [rows_of mapi_aux has_dup_key]. fold (rows_of (i + 1) pts). rewrite IH, orb_false_r.
+    apply not_true_is_false. intros H. apply existsb_exists in H.
+    destruct H as [kv [Hin Hk]]. apply rows_keys_ge in Hin. lia.
+  Qed.
+
+  Lemma rows_sorted i pts : sort_keys (rows_of i pts) = rows_of i pts.
+  Proof.
+    revert i; induction pts as [|xy pts IH]; intros i; [reflexivity|].
+    cbn [rows_of mapi_aux]. fold (rows_of (i + 1) pts).
+    unfold sort_keys. cbn [fold_right fst snd]. fold (sort_keys (rows_of (i + 1) pts)).
+    rewrite IH. destruct pts as [|xy' pts']; [reflexivity|].
+    cbn [rows_of mapi_aux insert_key]. replace (i <? i + 1) with true by lia. reflexivity.
+  Qed.
+
+  Lemma rows_same_lengths i pts : same_lengths F (rows_of i pts) = true.
+  Proof.
+    destruct pts as [|xy pts]; [reflexivity|]. cbn [rows_of mapi_aux same_lengths].
+    generalize (i + 1). induction pts as [|xy' pts IH]; intros j; [reflexivity|].
+    cbn [mapi_aux forallb snd List.length]. now rewrite IH.
+  Qed.
+
+  Lemma rows_rows2 i pts : rows2 F (rows_of i pts) = Some pts.
+  Proof.
+    revert i; induction pts as [|[x y] pts IH]; intros i; [reflexivity|].
+    cbn [rows_of mapi_aux rows2 fst snd]. fold (rows_of (i + 1) pts). now rewrite IH.
+  Qed.
+
+  (* ---- the header ---- *)
+  Lemma header_id (f : pfilter F) : 0 <= f_id F f ->
+    parse_int (strip_set (zs "Polygon []") (strip (header_line F fmt8 f))) = Some (f_id F f).
+  Proof.
+    intros Hid.
+    destruct (digits_ok_cons _ (fmt8_digits _ Hid)) as (c & t & E & Hc & Hall & Hlast).
+    unfold header_line. vm_compute zs.
+    rewrite strip_clean
+      by (apply (clean_by_app is_space 91 [80; 111; 108; 121; 103; 111; 110; 32]); reflexivity).
+    unfold strip_set. rewrite clean_by_strip; [now apply parse_fmt8| |reflexivity|reflexivity].
+    unfold clean_by. rewrite E. rewrite <- E.
+    destruct (is_digit_props _ Hc) as (_ & _ & _ & _ & _ & M1).
+    destruct (is_digit_props _ Hlast) as (_ & _ & _ & _ & _ & M2).
+    vm_compute zs in M1, M2. now rewrite M1, M2.
+  Qed.
+
+  Lemma mem_false ids (u : Z) : ~ In u ids -> mem ids u = false.
+  Proof.
+    intros H. unfold mem. apply not_true_is_false. intros E. apply existsb_exists in E.
+    destruct E as [x [Hin Hx]]. apply H. replace u with x by lia. exact Hin.
+  Qed.
+
+  Notation load_one := (load_one F parsef parse_int).
+  Notation slines := (save_lines F fmtf fmt8).
+
+  Lemma load_one_saved fs k (f : pfilter F) ids c :
+    nth_error fs k = Some f -> wf_filter f = true -> ~ In (f_id F f) ids ->
+    load_one (flat_map slines fs) k (ids, c)
+    = (LOk f, (ids ++ [f_id F f], Z.max c (f_id F f + 1))).
+  Proof.
+    intros Hn Hwf Hnew. destruct (wf_props f Hwf) as (Hid & Hx & Hy & Hnm & Hp).
+    unfold C15.load_one.
+    rewrite (blocks_saved F fmtf fmt8), (map_nth_error _ _ _ Hn).
+    rewrite load_body_saved by exact Hwf. cbn [a_x a_y a_name a_inv a_pts].
+    rewrite rows_no_dup, rows_sorted, rows_same_lengths. cbn [negb].
+    rewrite header_id by exact Hid.
+    unfold set_unique_id. rewrite mem_false by exact Hnew.
+    rewrite rows_rows2.
+    destruct (rows_of 0 (f_pts F f)) eqn:Er.
+    { exfalso. destruct (f_pts F f); [now apply Hp|discriminate]. }
+    cbn [fst snd]. destruct f; reflexivity.
+  Qed.
+
+  Lemma load_one_end fs r :
+    load_one (flat_map slines fs) (List.length fs) r = (LIndexError, r).
+  Proof.
+    unfold C15.load_one. rewrite (blocks_saved F fmtf fmt8).
+    replace (nth_error (map (fun f => (header_line F fmt8 f, body_lines F fmtf fmt8 f)) fs)
+                       (List.length fs)) with (@None (str * list str)); [reflexivity|].
+    symmetry. apply nth_error_None. now rewrite map_length.
+  Qed.
+
+  Notation import_loop := (import_loop F parsef parse_int).
+
+  Lemma import_loop_saved rest : forall done fuel ids0 c,
+    Forall (fun f => wf_filter f = true) rest ->
+    NoDup (map (f_id F) rest) ->
+    (forall f, In f rest -> ~ In (f_id F f) (ids0 ++ map (f_id F) done)) ->
+    (List.length rest < fuel)%nat ->
+    exists c',
+      import_loop fuel (flat_map slines (done ++ rest)) (List.length done)
+                  (ids0 ++ map (f_id F) done, c) done
+      = (LOk (done ++ rest), (ids0 ++ map (f_id F) (done ++ rest), c')).
+  Proof.
+    induction rest as [|f rest IH]; intros done fuel ids0 c Hwf Hnd Hnew Hfuel.
+    - destruct fuel as [|fuel]; [inversion Hfuel|]. cbn [C15.import_loop].
+      rewrite app_nil_r, load_one_end. now exists c.
+    - destruct fuel as [|fuel]; [inversion Hfuel|]. cbn [C15.import_loop].
+      inversion Hwf as [|? ? Hf Hwf']; subst. inversion Hnd as [|? ? Hnotin Hnd']; subst.
+      rewrite (load_one_saved _ _ f).
+      + specialize (IH (done ++ [f]) fuel ids0 (Z.max c (f_id F f + 1)) Hwf' Hnd').
+        rewrite <- !app_assoc in IH. cbn [app] in IH.
+        rewrite app_length, Nat.add_1_r in IH. rewrite map_app in IH. cbn [map] in IH.
+        rewrite app_assoc in IH. apply IH.
+        * intros g Hg Hin. rewrite <- app_assoc in Hin.
+          apply in_app_or in Hin. destruct Hin as [Hin|Hin].
+          -- apply (Hnew g (or_intror Hg)). apply in_or_app. now left.
+          -- apply in_app_or in Hin. destruct Hin as [Hin|[Hin|[]]].
+             ++ apply (Hnew g (or_intror Hg)). apply in_or_app. now right.
+             ++ apply Hnotin. rewrite Hin. now apply in_map.
+        * simpl in Hfuel. lia.
+      + rewrite nth_error_app2 by lia. now rewrite Nat.sub_diag.
+      + exact Hf.
+      + apply Hnew. now left.
+  Qed.
+End Load.
+
+(* ---- the round trip --------------------------------------------------------- *)
+Lemma saved_lines_no_nl F fmtf fmt8 :
+  (forall v, token_ok (fmtf v) = true) ->
+  (forall n, 0 <= n -> digits_ok (fmt8 n) = true) ->
+  forall fs : list (pfilter F), Forall (fun f => wf_filter f = true) fs ->
+    forallb no_nl (flat_map (save_lines F fmtf fmt8) fs) = true.
+Proof.
+  intros Htok Hdig fs Hwf.
+  assert (Dn : forall n, 0 <= n -> no_nl (fmt8 n) = true).
+  { intros n Hn. destruct (digits_ok_cons _ (Hdig n Hn)) as (_ & _ & _ & _ & Hall & _).
+    unfold no_nl. eapply forallb_impl; [|exact Hall]. intros c Hc.
+    destruct (is_digit_props c Hc) as (_ & _ & H10 & H13 & _). now rewrite H10, H13. }
+  assert (Tn : forall v, no_nl (fmtf v) = true).
+  { intros v. destruct (token_ok_cons _ (Htok v)) as (_ & _ & _ & Hall).
+    unfold no_nl. eapply forallb_impl; [|exact Hall]. intros c Hc. cbv beta in Hc.
+    unfold is_space in Hc.
+    destruct (c =? 10) eqn:E10; [exfalso; lia|]. destruct (c =? 13) eqn:E13; [exfalso; lia|].
+    reflexivity. }
+  assert (Pn : forall pts i, 0 <= i ->
+             forallb no_nl (mapi_aux (point_line F fmtf fmt8) i pts) = true).
+  { induction pts as [|xy pts IH]; intros i Hi; [reflexivity|].
+    cbn [mapi_aux forallb]. rewrite IH by lia. rewrite andb_true_r.
+    unfold point_line. rewrite !no_nl_app, Dn, !Tn by exact Hi. reflexivity. }
+  induction Hwf as [|f fs Hf Hwf IH]; [reflexivity|].
+  cbn [flat_map]. rewrite forallb_app, IH, andb_true_r.
+  destruct (wf_props F f Hf) as (Hid & Hx & Hy & Hn & _).
+  destruct (axis_ok_props _ Hx) as (Nx & _). destruct (axis_ok_props _ Hy) as (Ny & _).
+  unfold name_ok in Hn. apply andb_true_iff in Hn. destruct Hn as [Nn _].
+  unfold save_lines, header_line, body_lines. cbn [forallb app].
+  rewrite Pn by lia.
+  rewrite !no_nl_app, Dn, Nx, Ny, Nn by exact Hid.
+  destruct (f_inv F f); reflexivity.
+Qed.
+
+Lemma saved_lines_length F fmtf fmt8 (fs : list (pfilter F)) :
+  (List.length fs <= List.length (flat_map (save_lines F fmtf fmt8) fs))%nat.
+Proof.
+  induction fs as [|f fs IH]; [apply Nat.le_refl|].
+  cbn [flat_map]. rewrite app_length. unfold save_lines at 1. simpl. lia.
+Qed.
+
+Theorem roundtrip_partial :
+  forall (F : Type) (fmtf : F -> str) (parsef : str -> option F)
+         (fmt8 : Z -> str) (parse_int : str -> option Z),
+    (forall v, parsef (fmtf v) = Some v) ->
+    (forall v, token_ok (fmtf v) = true) ->
+    (forall n, 0 <= n -> parse_int (fmt8 n) = Some n) ->
+    (forall n, 0 <= n -> digits_ok (fmt8 n) = true) ->
+    forall (fs : list (pfilter F)) (ids0 : list Z) (c0 : Z),
+      Forall (fun f => wf_filter f = true) fs ->
+      NoDup (map (f_id F) fs) ->
+      (forall f, In f fs -> ~ In (f_id F f) ids0) ->
+      exists c',
+        import_all F parsef parse_int (save_all F fmtf fmt8 fs) (ids0, c0)
+        = (LOk fs, (ids0 ++ map (f_id F) fs, c')).
+Proof.
+  intros F fmtf parsef fmt8 parse_int H1 H2 H3 H4 fs ids0 c0 Hwf Hnd Hnew.
+  unfold import_all, save_all, unlines.
+  rewrite lines_unlines by (apply saved_lines_no_nl; assumption).
+  destruct (import_loop_saved F fmtf parsef fmt8 parse_int H1 H2 H3 H4 fs []
+              (S (List.length (flat_map (save_lines F fmtf fmt8) fs))) ids0 c0 Hwf Hnd)
+    as [c' E].
+  - intros f Hf. cbn [map]. rewrite app_nil_r. now apply Hnew.
+  - pose proof (saved_lines_length F fmtf fmt8 fs). lia.
+  - exists c'. cbn [app map List.length] in E. rewrite app_nil_r in E. exact E.
+Qed.
+
+(* ---- the guard cannot be dropped (finding C15-name-blanks) ------------------ *)
+(* executable instance: integer coordinates written in decimal *)
+Definition save_c (fs : list pfz) : str := save_all Z fmtf_c dec8 fs.
+Definition import_c (text : str) : lres (list pfz) := fst (import_all Z parsef_c parse_int_c text ([], 0)).
+
+Definition ex_tri : list (Z * Z) := [(0, 0); (0, 8); (8, 8)].
+Definition ex_blank : pfz := mkpf Z 0 (zs "area_um") (zs "deform") (zs " a") false ex_tri.
+Definition ex_break : pfz := mkpf Z 0 (zs "area_um") (zs "deform") [97; 10; 98] false ex_tri.
+Definition ex_good : pfz := mkpf Z 3 (zs "area_um") (zs "deform") (zs "x = y, 100 %") true ex_tri.
+
+Lemma roundtrip_refuted :
+  (exists f : pfz, wf_filter f = false /\ name_ok (f_name Z f) = false
+                   /\ import_c (save_c [f]) = LOk [mkpf Z 0 (zs "area_um") (zs "deform") (zs "a") false ex_tri]
+                   /\ import_c (save_c [f]) <> LOk [f])
+  /\ (exists f : pfz, name_ok (f_name Z f) = false /\ import_c (save_c [f]) = LValueError).
+Proof.
+  split.
+  - exists ex_blank. repeat split; try (vm_compute; reflexivity).
+    intros H. vm_compute in H. discriminate H.
+  - exists ex_break. split; vm_compute; reflexivity.
+Qed.
+
+(* ---- non-vacuity -------------------------------------------------------------- *)
+(* the hypotheses of roundtrip_partial are jointly satisfiable: unary digits *)
+Definition fmt_unary (n : Z) : str := repeat 49 (Z.to_nat n) ++ [48].
+Definition parse_unary (s : str) : option Z := Some (Z.of_nat (List.length s) - 1).
+Definition fmt_bool (b : bool) : str := if b then [49] else [48].
+Definition parse_bool (s : str) : option bool :=
+  match s with [49] => Some true | [48] => Some false | _ => None end.
+
+Lemma unary_hyps :
+  (forall v, parse_bool (fmt_bool v) = Some v)
+  /\ (forall v, token_ok (fmt_bool v) = true)
+  /\ (forall n, 0 <= n -> parse_unary (fmt_unary n) = Some n)
+  /\ (forall n, 0 <= n -> digits_ok (fmt_unary n) = true).
+Proof.
+  repeat split.
+  - now intros [].
+  - now intros [].
+  - intros n Hn. unfold parse_unary, fmt_unary. rewrite app_length, repeat_length. simpl.
+    f_equal. lia.
+  - intros n Hn. unfold fmt_unary, digits_ok.
+    assert (H : forallb is_digit (repeat 49 (Z.to_nat n) ++ [48]) = true).
+    { rewrite forallb_app. simpl. rewrite andb_true_r.
+      induction (Z.to_nat n) as [|k IH]; [reflexivity|]. simpl. exact IH. }
+    destruct (repeat 49 (Z.to_nat n) ++ [48]) eqn:E; [|exact H].
+    destruct (repeat 49 (Z.to_nat n)); discriminate E.
+Qed.
+
+Example ex_roundtrip_hyps :
+  Forall (fun f => wf_filter f = true) [ex_good; mkpf Z 7 (zs "fl1_max") (zs "aspect") [] false ex_tri]
+  /\ NoDup (map (f_id Z) [ex_good; mkpf Z 7 (zs "fl1_max") (zs "aspect") [] false ex_tri])
+  /\ import_c (save_c [ex_good; mkpf Z 7 (zs "fl1_max") (zs "aspect") [] false ex_tri])
+     = LOk [ex_good; mkpf Z 7 (zs "fl1_max") (zs "aspect") [] false ex_tri].
+Proof.
+  split; [repeat constructor|split; [|vm_compute; reflexivity]].
+  repeat constructor; simpl; intuition discriminate.
+Qed.
